@@ -41,7 +41,11 @@ RULE = ("Documents are rendered from abstract trees; the oracle is the tree that
         "parse_file (file in a mkdtemp directory under /dev/shm) and the language= argument; a difference that the "
         "same document shows in English too is reported without the language. "
         "(5) parse_steps / parse_scenario / parse_rule / parse_tags on rendered step blocks, scenarios, rules, tag "
-        "texts. (6) ModelDescriptor.describe_table / describe_docstring re-parsed. (7) E2: breadth-first search over "
+        "texts; for parse_tags tags on 1-3 lines, trailing comments on every subset of lines, and blank / "
+        "whitespace-only / comment-only lines (1-2 at a time) at every position before, between and after the tag "
+        "lines (thorough: pairs of positions), comparing every Tag name AND Tag.line with the line it is written on; "
+        "the same fillers at every position of feature / scenario / rule documents whose taggable elements all carry "
+        "2-3 tags (one or two tag lines, with and without trailing comment). (6) ModelDescriptor.describe_table / describe_docstring re-parsed. (7) E2: breadth-first search over "
         "line histories of a 20-kind well-formed-line alphabet on the real Parser (canonical abstraction of C05) for "
         "parse_feature and parse_steps, plus all sequences <= 3 (quick) / <= 4 (thorough) lines: whenever the real "
         "parser accepts a history that the reference grammar also places, the model must equal the reference "
@@ -55,7 +59,7 @@ ASSUMPTIONS = [
     "sequences, positions, languages and aliases are exhaustive, the cross product of details with shapes is a covering",
     "a rule without written Background may carry a synthesised empty Background (inheritance device): accepted",
     "'*' as first step of an element: 'given' or the type supplied by the background are both accepted (statement silent)",
-    "parse_scenario is only given plain scenarios; parse_tags is checked for tag names (it tracks no line numbers)",
+    "parse_scenario is only given plain scenarios",
     "in the E2 part histories that the reference grammar leaves unspecified (keyword-like or table-like lines where "
     "free-form description text is allowed, steps after an Examples table, two arguments on one step) are not compared",
     "the keyword table is etc/gherkin/gherkin-languages.json of the repository under test (the upstream data that "
@@ -443,6 +447,34 @@ def _place(layout, base):
     return out
 
 
+FILLERS = (u"", u"   ", u"# comment-only line", u"      # indented comment @notatag")
+FILLER_SETS = tuple((f,) for f in FILLERS) + ((u"", u"# comment-only line"), (u"# c1", u"#c2"), (u"   ", u""),
+                                               (u"    # c @x", u""))
+
+
+def _tag_doc(entry):
+    """small documents in which every taggable element carries 2-3 tags"""
+    st = [("given", gr.STEP_NAMES[0], None), ("then", gr.STEP_NAMES[1], None)]
+    scen = {"k": "scenario", "tags": [u"s1", u"s2", u"s3"], "name": u"S", "desc": [], "steps": st}
+    outl = {"k": "outline", "tags": [u"o1", u"o2"], "name": u"O <x>", "desc": [], "steps": st,
+            "examples": [{"tags": [u"e1", u"e2", u"e3"], "name": u"E", "table": ([u"x"], [[u"1"]])},
+                         {"tags": [u"e4", u"e5"], "name": u"", "table": ([u"x"], [[u"2"]])}]}
+    rule = {"k": "rule", "tags": [u"r1", u"r2"], "name": u"R", "desc": [gr.DESCS[1][0]],
+            "bg": {"name": u"", "desc": [], "steps": st[:1]}, "items": [scen, outl]}
+    if entry == "scenario":
+        return scen
+    if entry == "rule":
+        return rule
+    return {"lang": "en", "tags": [u"f1", u"f2", u"f3"], "name": u"F", "desc": [], "bg": None,
+            "items": [dict(scen, tags=[u"a1", u"a2"]), rule]}
+
+
+def _tag_doc_nbase(entry):
+    doc = _tag_doc(entry)
+    r = gr.render(doc) if entry == "feature" else gr.render_scenario(doc) if entry == "scenario" else gr.render_rule(doc)
+    return r["nbase"]
+
+
 def check_entry(case):
     kind = case[0]
     if kind == "steps":
@@ -462,25 +494,43 @@ def check_entry(case):
         v = compare("model", kind, r, got, {})
         return {"v": v, "nt": digest(r["text"]), "out": (kind,), "dg": got}
     if kind == "tags":
-        _, taglines, comments, indent = case
-        text, want = gr.render_tags(taglines, comments)
-        if indent:
-            text = u"\n".join(indent + l for l in text.split(u"\n"))
+        _, taglines, comments, indent, fillers = case
+        text, want = gr.render_tags(taglines, comments, dict(fillers), indent)
+        names = [t["name"] for t in want]
         v = []
         try:
-            got = [u"%s" % t for t in bp.parse_tags(text)]
+            res = bp.parse_tags(text)
+            got = [{"kind": "tag", "name": u"%s" % t, "line": getattr(t, "line", None)} for t in res]
         except Exception as e:
             got = ("exc", type(e).__name__)
             v.append(({"subcheck": "model", "entry": "parse_tags", "clause": "raises", "exc": type(e).__name__},
                       "parse_tags(%r) raised %r" % (text, e)))
         else:
-            if got != want:
+            gnames = [t["name"] for t in got]
+            if gnames != names:
                 clause = "mismatch"
-                if comments and got == want[:len(got)]:
+                if comments and gnames == names[:len(gnames)]:
                     clause = "dropped-after-comment"
                 v.append(({"subcheck": "tags", "entry": "parse_tags", "clause": clause},
-                          "parse_tags(%r) = %r, written tags are %r" % (text, got, want)))
-        return {"v": v, "nt": text, "out": ("tags", len(taglines), bool(comments)), "dg": got}
+                          "parse_tags(%r) = %r, written tags are %r" % (text, gnames, names)))
+            elif got != want:
+                bad = [(w["name"], w["line"], g["line"]) for w, g in zip(want, got) if w != g][0]
+                v.append(({"subcheck": "model", "entry": "parse_tags", "clause": "tag.line"},
+                          "parse_tags(%r): tag %r is written on line %r, Tag.line is %r" % ((text,) + bad)))
+        return {"v": v, "nt": text, "out": ("tags", len(taglines), bool(comments), len(fillers)), "dg": got}
+    if kind == "taglayout":
+        _, entry, fillers, taglines, tagcomment = case
+        doc = _tag_doc(entry)
+        layout = {"insert": dict(fillers), "taglines": taglines, "tagcomment": tagcomment}
+        if entry == "feature":
+            r = gr.render(doc, layout)
+        elif entry == "scenario":
+            r = gr.render_scenario(doc, layout=layout)
+        else:
+            r = gr.render_rule(doc, layout=layout)
+        got = _parse(entry, r["text"])
+        v = compare("model", entry, r, got, {})
+        return {"v": v, "nt": digest(r["text"]), "out": ("taglayout", entry, taglines, tagcomment), "dg": got}
     raise ValueError(case)
 
 
@@ -499,13 +549,34 @@ def entry_cases(thorough):
         for items in ((), ("S",), ("S", "O1"), ("O2", "S")):
             for seed in range(3):
                 yield ("rule", (rbg, items), seed, None)
+    # parse_tags: tags on 1-3 lines, trailing comments on every subset of lines, indentation, and blank /
+    # comment-only lines (1-2 at a time) at EVERY position before, between and after the tag lines (thorough: at
+    # every pair of positions)
     tagsets = [[[u"a"]], [[u"a", u"b"]], [[u"a"], [u"b"]], [[u"a", u"b"], [u"c"]], [[u"a"], [u"b"], [u"c", u"d"]]]
     for ts in tagsets:
         n = len(ts)
         for mask in range(1 << n):
             comments = tuple(i for i in range(n) if mask >> i & 1)
-            yield ("tags", ts, comments, u"")
-        yield ("tags", ts, (), u"  ")
+            yield ("tags", ts, comments, u"", ())
+            for pos in range(n + 1):
+                for fs in FILLER_SETS:
+                    if mask in (0, (1 << n) - 1) or fs in FILLER_SETS[:4]:
+                        yield ("tags", ts, comments, u"", ((pos, fs),))
+            if thorough:
+                for a in range(n + 1):
+                    for b in range(a + 1, n + 1):
+                        for fa, fb in ((FILLER_SETS[0], FILLER_SETS[2]), (FILLER_SETS[3], FILLER_SETS[4])):
+                            yield ("tags", ts, comments, u"", ((a, fa), (b, fb)))
+        yield ("tags", ts, (), u"  ", ())
+        yield ("tags", ts, (), u"\t", ((0, FILLER_SETS[4]), (n, FILLER_SETS[2])))
+    # the same layouts for the tag lines inside feature / scenario / rule documents
+    for entry in ("feature", "scenario", "rule"):
+        nb = _tag_doc_nbase(entry)
+        for taglines in (1, 2):
+            for tagcomment in (False, True):
+                for pos in range(nb + 1):
+                    for fs in (FILLER_SETS if (taglines == 2 or thorough) else FILLER_SETS[:4]):
+                        yield ("taglayout", entry, ((pos, fs),), taglines, tagcomment)
 
 
 # ================================================================ (6) ModelDescriptor round trip
